@@ -152,6 +152,10 @@ pub async fn bob_case(w: &World, rng: &mut Rng, script: &Value) -> Value {
     let h2 = handle.clone();
     let acc = accept.clone();
     let pk = peer_key(w, 0);
+    // what the acceptor says it sent (into_outcome) and what this peer actually got in reply frames
+    let sent_cell = std::sync::Arc::new(std::sync::atomic::AtomicI64::new(-1));
+    let sent_out = sent_cell.clone();
+    let mut peer_got: i64 = 0;
     let task = tokio::spawn(async move {
         let mut st = VerifBobState::new(pk);
         let res = st
@@ -173,6 +177,8 @@ pub async fn bob_case(w: &World, rng: &mut Rng, script: &Value) -> Value {
         };
         let ns_known = st.namespace().is_some();
         let out = std::panic::catch_unwind(std::panic::AssertUnwindSafe(move || st.into_outcome()));
+        let sent = out.as_ref().map(|o| o.num_sent as i64).unwrap_or(-1);
+        sent_out.store(sent, std::sync::atomic::Ordering::SeqCst);
         (cls, out.is_ok(), ns_known)
     });
     tokio::pin!(task);
@@ -188,6 +194,7 @@ pub async fn bob_case(w: &World, rng: &mut Rng, script: &Value) -> Value {
     let mut frames: Vec<Value> = script["frames"].as_array().cloned().unwrap_or_default();
     frames.push(json!({"frame":"Eof","fault":""}));
     let mut closed = false;
+    let mut graveyard: Vec<tokio::io::DuplexStream> = vec![];
     for f in frames {
         if finished.is_some() || closed {
             break;
@@ -247,6 +254,16 @@ pub async fn bob_case(w: &World, rng: &mut Rng, script: &Value) -> Value {
                 }
             }
         }
+        let gone = f["gone"].as_bool().unwrap_or(false) && !closed;
+        if gone {
+            // the peer is gone: both directions of its stream are dropped (replaced by the ends of an unrelated pipe)
+            let (d1, d2) = tokio::io::duplex(8);
+            let (dr, dw) = tokio::io::split(d1);
+            drop(std::mem::replace(&mut peer_r, dr));
+            drop(std::mem::replace(&mut peer_w, dw));
+            graveyard.push(d2);
+            closed = true;
+        }
         // observe the reaction: a reply frame, or termination
         let reaction = tokio::select! {
             r = &mut task => {
@@ -255,7 +272,7 @@ pub async fn bob_case(w: &World, rng: &mut Rng, script: &Value) -> Value {
                 r.0
             }
             fr = read_frame(&mut peer_r, &mut dec) => match fr {
-                Ok(Some(Frame::Sync(m))) => { last_reply = Some(m); "reply" }
+                Ok(Some(Frame::Sync(m))) => { peer_got += count_values(&m); last_reply = Some(m); "reply" }
                 Ok(Some(Frame::Abort { .. })) => "abortframe",
                 Ok(Some(Frame::Init { .. })) => "initframe",
                 _ => "closed",
@@ -272,11 +289,12 @@ pub async fn bob_case(w: &World, rng: &mut Rng, script: &Value) -> Value {
             finished = Some(r);
             reaction = r.0.to_string();
         }
-        steps.push(json!({"frame":kind,"cond":cond,"reaction":reaction}));
+        steps.push(json!({"frame":kind,"cond":cond,"reaction":reaction,"gone":gone}));
         if hang {
             break;
         }
     }
+    drop(graveyard);
     let (res, outcome_ok, ns_known) = finished.unwrap_or(("HANG", true, false));
     // the store afterwards
     if kept.is_none() {
@@ -289,7 +307,8 @@ pub async fn bob_case(w: &World, rng: &mut Rng, script: &Value) -> Value {
         None => json!("ERR"),
     };
     json!({"ev":"Bob","accept":accept,"steps":steps,"res":res,"outcome": if outcome_ok {"ok"} else {"PANIC"},
-           "changed": before != after, "hang": hang, "ns": ns_known, "alive": alive})
+           "changed": before != after, "hang": hang, "ns": ns_known, "alive": alive,
+           "sent": sent_cell.load(std::sync::atomic::Ordering::SeqCst), "got": peer_got})
 }
 
 const ALICE_FRAMES: &[&str] = &["SyncValid", "SyncValid", "SyncValid", "SyncArb", "SyncBadId", "InitOk", "Abort", "Garbage", "Oversize", "Partial", "PartialPrefix", "Eof"];
@@ -574,7 +593,13 @@ pub fn gen_scripts(rng: &mut Rng, n: usize) -> Vec<Value> {
                 let mut frames = vec![];
                 for j in 0..len {
                     let f = if j == 0 && rng.chance(2, 3) { if rng.chance(1, 4) { "InitItems" } else { "InitOk" } } else { *rng.pick(BOB_FRAMES) };
-                    frames.push(json!({"frame": f, "fault": *rng.pick(CONDS)}));
+                    // every sixth frame that asks for a reply is the last thing the peer does: it is gone (both directions of its
+                    // stream dropped) before the acceptor can answer
+                    let gone = matches!(f, "InitOk" | "InitItems" | "SyncValid" | "SyncArb") && rng.chance(1, 6);
+                    frames.push(json!({"frame": f, "fault": *rng.pick(CONDS), "gone": gone}));
+                    if gone {
+                        break;
+                    }
                 }
                 json!({"kind":"bob","accept": *rng.pick(&["Allow","Allow","Allow","RejectNotFound","RejectAlreadySyncing"]),"frames":frames})
             }
@@ -635,4 +660,16 @@ pub fn run(w: &World, seed: u64, rng: &mut Rng, schedules: Vec<Value>, n: usize,
     }
     let _ = Capability::Read(w.nsid());
     iroh_docs::verif::set_clock(0);
+}
+
+/// number of entries a reconciliation message carries (all values of all item parts), read off its serde form
+fn count_values(m: &iroh_docs::sync::ProtocolMessage) -> i64 {
+    fn walk(v: &Value) -> i64 {
+        match v {
+            Value::Object(o) => o.iter().map(|(k, x)| if k == "values" { x.as_array().map(|a| a.len() as i64).unwrap_or(0) } else { walk(x) }).sum(),
+            Value::Array(a) => a.iter().map(walk).sum(),
+            _ => 0,
+        }
+    }
+    serde_json::to_value(m).map(|v| walk(&v)).unwrap_or(0)
 }
